@@ -17,6 +17,7 @@ def run(tier, seed):
                 "with the manual's restart protocol: every 2-chunk split point (exhaustive up to the length cap) and sampled k-chunk "
                 "schedules incl. 1-byte feeding and zero-byte presentations; judged: final rc, total consumed and DER of the result "
                 "equal the one-shot run, the prefix call answers RC_WMORE with consumed <= presented; "
+                "the same for the shipped sample PDUs of the X.509 / LDAP (thorough: UMTS RRC) examples and the library's encodings of them; "
                 "distinct = distinct (encoding, schedule); resumption states (phase,step,sign(left)) seen at RC_WMORE are counted")
     chk.assumptions = ["UPER is excluded: documented as not restartable",
                        "only encodings whose one-shot decode is RC_OK with full consumption are used (others are C03's business)"]
@@ -28,41 +29,20 @@ def run(tier, seed):
     builds = harness.make_many(tc, [seed * 1000 + 300 + i for i in range(nmod)], prof, atoms=10, composites=10)
     from ..asn import shapes
     builds.append(harness.make(tc, seed * 1000 + 398, prof, module_fn=lambda g: shapes.build2("SH2")))
+    # the shipped real-world specifications with their shipped sample PDUs (vf/realpdu.py); no model: b.mod is None
+    from .. import realpdu
+    rnames = realpdu.names(quick)
+    rblds = realpdu.make_many(tc, rnames)
+    builds += [rblds[n_] for n_ in rnames]
     states = set()
     for b in builds:
         if b.exe is None:
             chk.inconcl("module not built (%s)" % b.error[0])
             continue
-        enc = der.Encoder(b.mod)
-        # ---- stage 1: corpus
-        cases, meta = [], {}
-        cid = 0
-        for tname, t in b.mod.types.items():
-            for v in (shapes.values2(b.mod, tname, rng, quick) if b.mod.name == "SH2" else b.gen.values(t, 2 if quick else 4)):
-                try:
-                    tree = enc.tree(t, v)
-                except der.Unsupported:
-                    continue
-                ref = der.serialize(tree)
-                cid += 1
-                cases.append(drv.Case(cid, ["dec s=0 t=%s syn=BER in=%s" % (tname, drv.hx(ref))] +
-                                      ["enc s=0 syn=%s" % s for s in ("DER", "OER", "BXER", "CXER")]))
-                meta[cid] = (tname, t, v, ref, tree)
-        res = drv.run_parallel(b.exe, cases, confirm=False)
-        corpus = []     # (tname, syn, family, bytes, der0)
-        for cid, (tname, t, v, ref, tree) in meta.items():
-            r = res.get(cid)
-            if r is None or r.status != "ok" or len(r.events) < 5 or r.events[0].get("rc") != "OK":
-                continue
-            d0 = r.events[1].get("out")
-            corpus.append((tname, "BER", "der", ref, d0, v))
-            for fam, vb in variants.ber_variants(rng, tree, 2 if quick else 5):
-                corpus.append((tname, "BER", fam, vb, d0, v))
-            for s, e in zip(("OER", "BXER", "CXER"), r.events[2:5]):
-                if int(e.get("rc", -1)) >= 0 and e.get("out") not in (None, "trunc", "q"):
-                    if tb.hit(taboo.ids(b.mod, t, v, s)) and rng.random() > 0.15:
-                        continue
-                    corpus.append((tname, s, "own", drv.unhex(e["out"]), d0, v))
+        if b.mod is None:
+            corpus = real_corpus(chk, tc, b)
+        else:
+            corpus = model_corpus(chk, tb, b, rng, quick)
         # ---- stage 2: schedules
         cases, meta = [], {}
         cid = 0
@@ -104,13 +84,13 @@ def run(tier, seed):
         res = drv.run_parallel(b.exe, cases, per_case_timeout=120)
         for cid, (tname, syn, fam, x, d0, sched, exhaustive, v) in meta.items():
             r = res.get(cid)
-            t = b.mod.types[tname]
+            t = b.mod.types[tname] if b.mod is not None else None
             n = len(x)
             replay = {"module": b.text, "pdu": tname, "syntax": syn, "family": fam, "input_hex": x.hex()}
             if r is None or r.status == "notrun":
                 chk.inconcl("case not run")
                 continue
-            fids = tb.hit(taboo.ids(b.mod, t, v, syn)) if syn != "BER" else []
+            fids = tb.hit(taboo.ids(b.mod, t, v, syn)) if syn != "BER" and b.mod is not None else []
             if r.status in ("crash", "hang"):
                 kind, frame = drv.classify_report(r.stderr)
                 chk.evaluations += 1
@@ -185,12 +165,73 @@ def run(tier, seed):
     return chk.finish()
 
 
+def model_corpus(chk, tb, b, rng, quick):
+    from ..asn import shapes
+    enc = der.Encoder(b.mod)
+    # ---- stage 1: corpus
+    cases, meta = [], {}
+    cid = 0
+    for tname, t in b.mod.types.items():
+        for v in (shapes.values2(b.mod, tname, rng, quick) if b.mod.name == "SH2" else b.gen.values(t, 2 if quick else 4)):
+            try:
+                tree = enc.tree(t, v)
+            except der.Unsupported:
+                continue
+            ref = der.serialize(tree)
+            cid += 1
+            cases.append(drv.Case(cid, ["dec s=0 t=%s syn=BER in=%s" % (tname, drv.hx(ref))] +
+                                  ["enc s=0 syn=%s" % s for s in ("DER", "OER", "BXER", "CXER")]))
+            meta[cid] = (tname, t, v, ref, tree)
+    res = drv.run_parallel(b.exe, cases, confirm=False)
+    corpus = []     # (tname, syn, family, bytes, der0)
+    for cid, (tname, t, v, ref, tree) in meta.items():
+        r = res.get(cid)
+        if r is None or r.status != "ok" or len(r.events) < 5 or r.events[0].get("rc") != "OK":
+            continue
+        d0 = r.events[1].get("out")
+        corpus.append((tname, "BER", "der", ref, d0, v))
+        for fam, vb in variants.ber_variants(rng, tree, 2 if quick else 5):
+            corpus.append((tname, "BER", fam, vb, d0, v))
+        for s, e in zip(("OER", "BXER", "CXER"), r.events[2:5]):
+            if int(e.get("rc", -1)) >= 0 and e.get("out") not in (None, "trunc", "q"):
+                if tb.hit(taboo.ids(b.mod, t, v, s)) and rng.random() > 0.15:
+                    continue
+                corpus.append((tname, s, "own", drv.unhex(e["out"]), d0, v))
+    return corpus
+
+
+def real_corpus(chk, tc, b):
+    """the shipped samples of this specification and the library's own encodings of them"""
+    from .. import realpdu
+    corpus = []
+    for spec, pdu, syn, label, data in realpdu.samples(tc, [b.name]):
+        r = drv.run_cases(b.exe, [drv.Case(1, ["dec s=0 t=%s syn=%s in=%s" % (pdu, syn, drv.hx(data))] +
+                                             ["enc s=0 syn=%s" % s for s in ("DER", "OER", "BXER", "CXER")] + ["free s=0"])], confirm=False).get(1)
+        if r is None or r.status != "ok" or len(r.events) < 5 or r.events[0].get("rc") != "OK":
+            chk.inconcl("shipped sample %s not decoded (C03)" % label)
+            continue
+        d0 = r.events[1].get("out")
+        if syn == "BER":
+            corpus.append((pdu, "BER", "sample", data[:int(r.events[0]["consumed"])], d0, None))
+        elif d0 not in (None, "trunc", "q") and int(r.events[1].get("rc", -1)) >= 0:
+            corpus.append((pdu, "BER", "own", drv.unhex(d0), d0, None))
+        for s, e in zip(("OER", "BXER", "CXER"), r.events[2:5]):
+            if int(e.get("rc", -1)) >= 0 and e.get("out") not in (None, "trunc", "q"):
+                corpus.append((pdu, s, "own", drv.unhex(e["out"]), d0, None))
+    chk.count("real_encodings", len(corpus))
+    return corpus
+
+
 def model_kind(b, t):
+    if b.mod is None:
+        return "real"
     return b.mod.resolve(t).kind
 
 
 def kinds_in(b, t, depth=6, seen=None):
     """kinds of the type nodes below (and including) t, references resolved, extensibility marked"""
+    if b.mod is None:
+        return {"real"}
     seen = seen if seen is not None else set()
     rt = b.mod.resolve(t)
     if id(rt) in seen or depth < 0:
